@@ -14,6 +14,7 @@
 #ifndef VERIF_C11_SEQ_H
 #define VERIF_C11_SEQ_H
 #include "dt-io-zone.h"
+#include <fcntl.h>
 
 static const char *const seq_alpha[] = {
 	"+1s", "-1s", "+2h", "-2h", "+90m", "-90m", "+24h", "-24h", "+48h", "-48h", "+1440m", "+86400s", "-86400s", "+0s", "+3600s", "+25h", "-25h",
